@@ -4,7 +4,8 @@ CONSTANTS
   MsgLimit = 2
   PropLimit = 1
   MaxRestarts = 1
-  Deviations = {"DupApplyAfterProposeTimeout"}
+  MaxTimeouts = 2
+  Mode = "asis"
 INVARIANTS ExactlyOnceInOrder
 PROPERTIES IndexMonotone Converges
 CHECK_DEADLOCK FALSE
